@@ -278,8 +278,7 @@ def families(ctx):
 
 
 def run(ctx):
-    for name, fn in families(ctx):
-        ctx.guarded(name, fn)
+    ctx.run_families(families(ctx))
     ctx.bounds += ['classification step: one loop iteration from an arbitrary state over every Residual shape (Concrete any Value / Error / Partial) and effect; decision table: all bucket-emptiness states, completions at bucket granularity']
     ctx.assumptions += ['Iterator::next, ResidualPolicy getters, HashMap/HashSet::{insert,is_empty,iter}, PolicySet::add, Policy::{effect,id,annotations_arc}, Expr::from(Residual): environment stubs / uninterpreted functions',
                         'Residual::{is_true,is_false,is_error} are executed from the MIR (not stubbed)',
